@@ -554,7 +554,7 @@ def row_failure_case(row, cid):
 
 def row_bad(row):
     imperr = row["imperr"] if max(row["v"], row["bg"]) <= MAX_ADD_RHO else 0
-    return row["panic"] + imperr + row["rt_bad"] + (1 if row["est_max"] and int(row["est_max"]) >= FIN_LIMIT else 0)
+    return row["panic"] + imperr + row["rt_bad"] + row["sat"]
 
 
 # ---- TLC trace judge ------------------------------------------------------------------------------
